@@ -33,6 +33,16 @@ def work_admm(task):
     from vlib import lib
     lib.load("nojit")
     from fast_ticc import admm
+    if len(task) == 3 and isinstance(task[1], (list, tuple)):
+        # several window sizes for one N in ONE process, in the given order
+        merged = Acc()
+        for W in task[1]:
+            r = work_admm((task[0], W, task[2], 0, 9))
+            merged.n += r["n"]
+            merged.nontrivial += r["nontrivial"]
+            merged.fails += r["fails"]
+        merged.sample({"kind": "admm_sequence", "N": task[0], "W_order": list(task[1])})
+        return merged.result()
     (N, W, seed, part, nparts) = task
     n = N * W
     acc = Acc()
@@ -76,6 +86,22 @@ def work_admm(task):
                         if got.tobytes() != base.tobytes():
                             acc.fail(dict(case0, form=tn, v=v),
                                      f"lambda={v} as {tn} and as float give different Theta")
+            # narrow NumPy scalar types holding a value that is NOT a small dyadic: the same numeric value
+            # as a Python number must give the same Theta (products must not be formed in the narrow dtype)
+            for (tn, x) in (("np.float32", np.float32(0.11)), ("np.float16", np.float16(0.3)),
+                            ("np.uint8", np.uint8(100)), ("np.int8", np.int8(50)), ("np.float32", np.float32(3.3))):
+                acc.n += 1
+                pyv = float(x) if "float" in tn else int(x)
+                try:
+                    a = admm.admm_optimize_theta(S.copy(), pyv, W, N, max_iterations=200).theta
+                    b = admm.admm_optimize_theta(S.copy(), x, W, N, max_iterations=200).theta
+                except Exception as ex:
+                    acc.fail(dict(case0, form=tn, v=pyv), f"lambda={pyv!r} as {tn} raises {type(ex).__name__}: {ex}")
+                    continue
+                if a.tobytes() != b.tobytes():
+                    acc.fail(dict(case0, form=tn, v=pyv),
+                             f"lambda={pyv!r} as Python number and as {tn} of the same value give different Theta "
+                             f"(max diff {float(np.max(np.abs(a - b))):.3g})")
     acc.sample({"kind": "admm", "N": N, "W": W})
     return acc.result()
 
@@ -186,6 +212,8 @@ def run(ctx):
         shapes += [(2, 2), (1, 4), (4, 1)]
     atasks = [(N, W, ctx.seed, part, 8 if N * W >= 3 else 1) for (N, W) in sorted(set(shapes), key=lambda s: -s[0] * s[1])
               for part in range(8 if N * W >= 3 else 1)]
+    # window sizes in ascending and descending order within one process (memoised helpers warm)
+    atasks += [(1, [1, 2, 3, 4], ctx.seed), (1, [4, 3, 2, 1], ctx.seed), (2, [1, 2, 3], ctx.seed), (2, [3, 2, 1], ctx.seed)]
     for r in ctx.pmap(work_admm, atasks):
         ctx.take(r)
     lshapes = [(T, K) for T in range(1, 7) for K in range(1, 7) if T * K <= (8 if ctx.thorough else 6)]
@@ -203,7 +231,9 @@ def run(ctx):
         "(i) S = Q diag(e) Q^T for every e in {0.25,1,4}^NW, 3 bases, NW<=3 (thorough <=4): lambda in "
         "{0,0.25,0.5,1,2} float vs constant matrix bitwise, {0.11,0.3} within 1e-9 relative, and each of "
         "{0,0.25,0.5,1,2} as float/np.float64/np.float32/np.float16/int/np.int64/np.int32/np.uint8 (where exact) "
-        "bitwise; (ii) every table over {0,1,3}^(T*K), T*K<=6 (thorough 8): beta in {0,0.5,1,2,5} in every scalar "
+        "bitwise, plus non-dyadic values held in narrow dtypes (np.float32(0.11), np.float16(0.3), np.uint8(100), "
+        "np.int8(50)) vs the Python number of the same value, and window sizes 1..4 in ascending and descending order "
+        "within one process; (ii) every table over {0,1,3}^(T*K), T*K<=6 (thorough 8): beta in {0,0.5,1,2,5} in every scalar "
         "type and as float64/float32/int64 constant vector: identical labels and cost; (iii) driver k2a, every "
         "2nd (thorough: every) initial labelling, through ticc_labels: lambda=1, beta=2, eps=0 and eps=0.25 each "
         "in every equivalent form: all result fields bitwise equal. non-trivial = comparisons where both forms "
